@@ -185,6 +185,12 @@ def replay_file(path):
     if name in bad:
         print("REPRODUCED property=%s cfg=%s obligation=%s fails on the real float code" % (rec["property"], rec["cfg"]["id"], name))
         return 1
+    if bad:
+        # the input found by the solver makes the real code violate the property, although through another clause than the one the
+        # symbolic run tripped over (e.g. the symbolic run hit an exception / an intermediate obligation): still a concrete violation
+        print("REPRODUCED property=%s cfg=%s obligation=%s fails on the real float code (symbolic finding: %s)"
+              % (rec["property"], rec["cfg"]["id"], bad[0], name))
+        return 1
     if name.startswith("exception:"):
         print("NOT-REPRODUCED (no exception in float run)")
         return 0
